@@ -43,6 +43,12 @@ struct Shared {
     pending_poke: Cell<bool>,
     pending_kill: Cell<bool>,
     poked_this_round: Cell<bool>,
+    /// the dynamic sum is needed by an observer in the stabilise that is running
+    sum_needed_now: Cell<bool>,
+    sum_ever_ran: Cell<bool>,
+    /// make_stale was called on the (already computed) sum while nothing needed it: the next
+    /// stabilise that needs it must recompute it
+    stale_owed: Cell<bool>,
     killed: Cell<bool>,
     invocations: Cell<u64>,
     removed_invalid_dep: Cell<u64>,
@@ -121,14 +127,14 @@ pub fn gen_plan(seed: u64) -> Plan {
         .collect();
     let n_actions = r.range(8, 40) as usize;
     let fault_free = r.chance(1, 6);
-    let mut acts = vec![XAct::Observe { out: r.below(5) }, XAct::Stabilise];
+    let mut acts = vec![XAct::Observe { out: r.below(6) }, XAct::Stabilise];
     while acts.len() < n_actions {
         let a = match r.weighted(&[10, 5, 6, 12, 8, 5, 14, if fault_free { 0 } else { 3 }, if fault_free { 0 } else { 1 }]) {
             0 => XAct::SetSel { k: r.below(16) },
             1 => XAct::SetOuter { j: r.below(16) },
             2 => XAct::SetBsel { x: r.range(-3, 8) },
             3 => XAct::WriteChild { i: r.below(3), v: r.range(-3, 8) },
-            4 => XAct::Observe { out: r.below(5) },
+            4 => XAct::Observe { out: r.below(6) },
             5 => XAct::DropObs { obs: r.below(16) },
             6 => XAct::Stabilise,
             7 => XAct::Poke,
@@ -184,7 +190,9 @@ impl Refm {
             1 => Some(self.inner(self.outer)),
             2 => Some(self.child(self.outer % N_CHILD)),
             3 => (!self.killed).then(|| norm(self.sum(cfg) + 1)),
-            _ => (!self.killed).then(|| norm(self.sum(cfg) + self.inner(self.outer))),
+            4 => (!self.killed).then(|| norm(self.sum(cfg) + self.inner(self.outer))),
+            // the poking child always returns 0
+            _ => Some(0),
         }
     }
 }
@@ -216,6 +224,9 @@ pub fn run_on_this_thread(plan: &Plan, keep_trace: bool) -> RunOutput {
         pending_poke: Cell::new(false),
         pending_kill: Cell::new(false),
         poked_this_round: Cell::new(false),
+        sum_needed_now: Cell::new(false),
+        sum_ever_ran: Cell::new(false),
+        stale_owed: Cell::new(false),
         killed: Cell::new(false),
         invocations: Cell::new(0),
         removed_invalid_dep: Cell::new(0),
@@ -264,6 +275,8 @@ pub fn run_on_this_thread(plan: &Plan, keep_trace: bool) -> RunOutput {
                 move || {
                     sh.invocations.set(sh.invocations.get() + 1);
                     sh.sum_recomputes_this_round.set(sh.sum_recomputes_this_round.get() + 1);
+                    sh.sum_ever_ran.set(true);
+                    sh.stale_owed.set(false);
                     let deps = sh.deps.borrow();
                     let slots = sh.slots.borrow();
                     let mut total = 0i64;
@@ -364,12 +377,16 @@ pub fn run_on_this_thread(plan: &Plan, keep_trace: bool) -> RunOutput {
                 if sh.pending_poke.replace(false) {
                     sh.ev("make_stale".into());
                     sh.poked_this_round.set(true);
+                    if !sh.sum_needed_now.get() && sh.sum_ever_ran.get() {
+                        sh.stale_owed.set(true);
+                    }
                     sum_weak.make_stale();
                 }
                 0i64
             })
         };
         sum.add_dependency(&poke_node);
+        let poke_out = poke_node.clone();
         let kill_node = {
             let sh = sh.clone();
             let sum_weak = sum_weak.clone();
@@ -400,6 +417,9 @@ pub fn run_on_this_thread(plan: &Plan, keep_trace: bool) -> RunOutput {
             ebound,
             sum.watch().map(|x| norm(*x + 1)),
             sum.watch().map2(&joined, |a, b| norm(*a + *b)),
+            // the child that calls make_stale, observable on its own: it then runs (and pokes
+            // the sum) while the sum itself is not needed
+            poke_out,
         ];
         let mut observers: Vec<Option<(usize, Observer<i64>, bool)>> = vec![];
 
@@ -449,6 +469,8 @@ pub fn run_on_this_thread(plan: &Plan, keep_trace: bool) -> RunOutput {
                     sh.poked_this_round.set(false);
                     let sum_needed = observers.iter().flatten().any(|(o, _, _)| matches!(o, 0 | 3 | 4));
                     let poke_pending = sh.pending_poke.get();
+                    let owed = sh.stale_owed.get();
+                    sh.sum_needed_now.set(sum_needed);
                     state.stabilise();
                     rounds += 1;
                     stabilised = true;
@@ -461,6 +483,9 @@ pub fn run_on_this_thread(plan: &Plan, keep_trace: bool) -> RunOutput {
                     let n = sh.sum_recomputes_this_round.get();
                     if n > 1 {
                         sh.bad("double-recompute", format!("the dynamic sum was recomputed {} times in one stabilise", n));
+                    }
+                    if owed && sum_needed && !refm.killed && n != 1 {
+                        sh.bad("make-stale", format!("make_stale was called on the dynamic sum while no observer needed it; in the first stabilise that needs it again it was recomputed {} times", n));
                     }
                     if poke_pending && sum_needed && sh.poked_this_round.get() && !refm.killed && n != 1 {
                         sh.bad("make-stale", format!("make_stale was called on the observed dynamic sum but it was recomputed {} times in that stabilise", n));
@@ -490,12 +515,12 @@ pub fn run_on_this_thread(plan: &Plan, keep_trace: bool) -> RunOutput {
                                 (None, Ok(_)) => "invalidate-ignored",
                                 _ => "wrong-value",
                             };
-                            sh.bad(rule, format!("output {} ({}) returned {:?}, the reference computation gives {:?}", outi, ["dynamic sum", "join", "expert bind", "map over sum", "map2(sum, join)"][*outi], got, exp));
+                            sh.bad(rule, format!("output {} ({}) returned {:?}, the reference computation gives {:?}", outi, ["dynamic sum", "join", "expert bind", "map over sum", "map2(sum, join)", "poking child"][*outi], got, exp));
                         }
                     }
                 }
             }
-            let lines = state.verif_audit(stabilised);
+            let lines = crate::run::full_audit(&state, stabilised);
             audits += 1;
             if !lines.is_empty() {
                 let at = sh.log.borrow().len();
